@@ -1415,7 +1415,13 @@ static void check_liveness(struct session *s, const char *where, int st)
 					}
 				}
 			}
-			if (R->rflushed && R->nl > 1) { cause = ":after-read-flush"; snprintf(at, sizeof(at), "filter-stack"); }
+			{
+				int nf = 0, q;
+				for (q = 0; q < R->nl; q++) nf += R->L[q].kind == LK_FILT;
+				/* be_filter_flush(EV_READ) strands bytes in the input of a *lower* filter: needs two of them */
+				if (R->rflushed && nf >= 2) { cause = ":after-read-flush"; snprintf(at, sizeof(at), "filter-stack"); }
+			}
+			if (cause[0]) ;
 			else if (!strcmp(at, "transport") && s->tls_retry_hazard) cause = ":after-append-to-blocked-tls-write";
 			snprintf(rule, sizeof(rule), "%s:%s%s", R->top->wm_read.high ? "no-resume" : "stalled", at, cause);
 			vh_viol(mkkey(s, rule),
